@@ -27,29 +27,34 @@ def serialize (es : List Entry) (checksumFlag : Bool) : List Nat :=
   es.flatMap (fun e => le32bytes e.cSize ++ le32bytes e.dSize ++ (if checksumFlag then le32bytes e.checksum else [])) ++
   le32bytes es.length ++ [if checksumFlag then 128 else 0] ++ le32bytes SEEKABLE_MAGIC
 
-/-- ZSTD_seekable_loadSeekTable on a whole archive (memory mode), with its 32-bit arithmetic -/
-def load (b : Bytes) : R (List Entry × Bool) := do
-  let n := b.size
-  if n < 9 then throw .generic
-  if b.le32 (n - 4) != SEEKABLE_MAGIC then throw .prefixUnknown
-  let sfd := b.u8 (n - 5)
-  if (sfd >>> 2) &&& 0x1f != 0 then throw .corruption
-  let ck := sfd >>> 7 == 1
-  let numFrames := b.le32 (n - 9)
-  let per := if ck then 12 else 8
-  let tableSize := (per * numFrames) % 4294967296          -- U32 multiplication
-  let frameSize := (tableSize + 17) % 4294967296
-  if frameSize > n then throw .generic                     -- seek before the beginning fails
-  let start := n - frameSize
-  if b.le32 start != SKIPPABLE_MAGIC_E then throw .prefixUnknown
-  if (b.le32 (start + 4) + 8) % 4294967296 != frameSize then throw .prefixUnknown
-  -- the loader then reads `numFrames` entries; with a wrapped size this runs off the end of the data (I/O error)
-  if per * numFrames + 17 != frameSize then throw .generic
-  let mut es : List Entry := []
-  for i in [0:numFrames] do
+/-- the entries of a table of `n` records of `per` bytes whose skippable frame starts at `start` -/
+def loadEntries (b : Bytes) (start per n : Nat) (ck : Bool) : List Entry :=
+  (List.range n).map (fun i =>
     let p := start + 8 + i * per
-    es := es ++ [{ cSize := b.le32 p, dSize := b.le32 (p + 4), checksum := if ck then b.le32 (p + 8) else 0 }]
-  return (es, ck)
+    { cSize := b.le32 p, dSize := b.le32 (p + 4), checksum := if ck then b.le32 (p + 8) else 0 })
+
+/-- ZSTD_seekable_loadSeekTable on a whole archive (memory mode), with its 32-bit arithmetic -/
+def load (b : Bytes) : R (List Entry × Bool) :=
+  let n := b.size
+  if n < 9 then .error .generic
+  else if b.le32 (n - 4) != SEEKABLE_MAGIC then .error .prefixUnknown
+  else
+    let sfd := b.u8 (n - 5)
+    if (sfd >>> 2) &&& 0x1f != 0 then .error .corruption
+    else
+      let ck := sfd >>> 7 == 1
+      let numFrames := b.le32 (n - 9)
+      let per := if ck then 12 else 8
+      let tableSize := (per * numFrames) % 4294967296          -- U32 multiplication
+      let frameSize := (tableSize + 17) % 4294967296
+      if frameSize > n then .error .generic                     -- seek before the beginning fails
+      else
+        let start := n - frameSize
+        if b.le32 start != SKIPPABLE_MAGIC_E then .error .prefixUnknown
+        else if (b.le32 (start + 4) + 8) % 4294967296 != frameSize then .error .prefixUnknown
+        -- the loader then reads `numFrames` entries; with a wrapped size this runs off the end of the data (I/O error)
+        else if per * numFrames + 17 != frameSize then .error .generic
+        else .ok (loadEntries b start per numFrames ck, ck)
 
 /-- ZSTD_seekTable_offsetToFrameIndex over the decompressed offsets `d 0 .. d n` -/
 def searchLoop (d : Nat → Nat) (pos : Nat) : (fuel : Nat) → (lo hi : Nat) → Nat
